@@ -1,0 +1,352 @@
+//! `DashMap` facade: every access is a scheduling point and a shard held by a suspended task
+//! is waited for cooperatively (`try_*` + `contended`). Whole-map operations (`iter`, `insert`,
+//! `remove`, `len`, ...) wait until no guard of this map is outstanding, i.e. they are modelled
+//! as atomic with respect to guarded accesses.
+#![allow(missing_docs)]
+
+use std::borrow::Borrow;
+use std::hash::Hash;
+use std::ops::Deref;
+use std::ops::DerefMut;
+use std::sync::atomic::AtomicUsize;
+use std::sync::atomic::Ordering;
+
+use ::dashmap::mapref::entry as de;
+use ::dashmap::mapref::one as d1;
+use ::dashmap::try_result::TryResult;
+
+use super::contended;
+use super::point;
+use super::PointKind;
+
+struct Token<'a>(&'a AtomicUsize);
+impl<'a> Token<'a> {
+    fn new(c: &'a AtomicUsize) -> Self {
+        c.fetch_add(1, Ordering::SeqCst);
+        Token(c)
+    }
+}
+impl Drop for Token<'_> {
+    fn drop(&mut self) {
+        self.0.fetch_sub(1, Ordering::SeqCst);
+    }
+}
+
+pub struct DashMap<K, V> {
+    inner: ::dashmap::DashMap<K, V>,
+    guards: AtomicUsize,
+}
+impl<K: Eq + Hash + Clone, V> Default for DashMap<K, V> {
+    fn default() -> Self {
+        Self::new()
+    }
+}
+impl<K, V> std::fmt::Debug for DashMap<K, V> {
+    fn fmt(&self, f: &mut std::fmt::Formatter<'_>) -> std::fmt::Result {
+        write!(f, "verif::DashMap")
+    }
+}
+
+pub struct Ref<'a, K, V> {
+    r: d1::Ref<'a, K, V>,
+    _t: Token<'a>,
+}
+impl<K: Eq + Hash, V> Ref<'_, K, V> {
+    pub fn key(&self) -> &K {
+        self.r.key()
+    }
+    pub fn value(&self) -> &V {
+        self.r.value()
+    }
+    pub fn pair(&self) -> (&K, &V) {
+        self.r.pair()
+    }
+}
+impl<K: Eq + Hash, V> Deref for Ref<'_, K, V> {
+    type Target = V;
+    fn deref(&self) -> &V {
+        self.r.value()
+    }
+}
+
+pub struct RefMut<'a, K, V> {
+    r: d1::RefMut<'a, K, V>,
+    _t: Token<'a>,
+}
+impl<K: Eq + Hash, V> RefMut<'_, K, V> {
+    pub fn key(&self) -> &K {
+        self.r.key()
+    }
+    pub fn value(&self) -> &V {
+        self.r.value()
+    }
+    pub fn value_mut(&mut self) -> &mut V {
+        self.r.value_mut()
+    }
+    pub fn pair(&self) -> (&K, &V) {
+        self.r.pair()
+    }
+}
+impl<K: Eq + Hash, V> Deref for RefMut<'_, K, V> {
+    type Target = V;
+    fn deref(&self) -> &V {
+        self.r.value()
+    }
+}
+impl<K: Eq + Hash, V> DerefMut for RefMut<'_, K, V> {
+    fn deref_mut(&mut self) -> &mut V {
+        self.r.value_mut()
+    }
+}
+
+pub struct OccupiedEntry<'a, K, V> {
+    e: de::OccupiedEntry<'a, K, V>,
+    t: Token<'a>,
+}
+impl<'a, K: Eq + Hash, V> OccupiedEntry<'a, K, V> {
+    pub fn get(&self) -> &V {
+        self.e.get()
+    }
+    pub fn get_mut(&mut self) -> &mut V {
+        self.e.get_mut()
+    }
+    pub fn insert(&mut self, v: V) -> V {
+        self.e.insert(v)
+    }
+    pub fn key(&self) -> &K {
+        self.e.key()
+    }
+    pub fn remove(self) -> V {
+        self.e.remove()
+    }
+    pub fn remove_entry(self) -> (K, V) {
+        self.e.remove_entry()
+    }
+    pub fn into_ref(self) -> RefMut<'a, K, V> {
+        RefMut {
+            r: self.e.into_ref(),
+            _t: self.t,
+        }
+    }
+}
+
+pub struct VacantEntry<'a, K, V> {
+    e: de::VacantEntry<'a, K, V>,
+    t: Token<'a>,
+}
+impl<'a, K: Eq + Hash, V> VacantEntry<'a, K, V> {
+    pub fn insert(self, v: V) -> RefMut<'a, K, V> {
+        RefMut {
+            r: self.e.insert(v),
+            _t: self.t,
+        }
+    }
+    pub fn key(&self) -> &K {
+        self.e.key()
+    }
+}
+
+pub enum Entry<'a, K, V> {
+    Occupied(OccupiedEntry<'a, K, V>),
+    Vacant(VacantEntry<'a, K, V>),
+}
+impl<'a, K: Eq + Hash, V> Entry<'a, K, V> {
+    pub fn key(&self) -> &K {
+        match self {
+            Entry::Occupied(o) => o.key(),
+            Entry::Vacant(v) => v.key(),
+        }
+    }
+    pub fn or_default(self) -> RefMut<'a, K, V>
+    where
+        V: Default,
+    {
+        self.or_insert_with(V::default)
+    }
+    pub fn or_insert(self, v: V) -> RefMut<'a, K, V> {
+        self.or_insert_with(|| v)
+    }
+    pub fn or_insert_with(self, f: impl FnOnce() -> V) -> RefMut<'a, K, V> {
+        match self {
+            Entry::Occupied(o) => o.into_ref(),
+            Entry::Vacant(v) => v.insert(f()),
+        }
+    }
+    pub fn and_modify(mut self, f: impl FnOnce(&mut V)) -> Self {
+        if let Entry::Occupied(o) = &mut self {
+            f(o.get_mut());
+        }
+        self
+    }
+}
+
+pub struct RefMulti<'a, K, V> {
+    r: ::dashmap::mapref::multiple::RefMulti<'a, K, V>,
+}
+impl<K: Eq + Hash, V> RefMulti<'_, K, V> {
+    pub fn key(&self) -> &K {
+        self.r.key()
+    }
+    pub fn value(&self) -> &V {
+        self.r.value()
+    }
+    pub fn pair(&self) -> (&K, &V) {
+        self.r.pair()
+    }
+}
+impl<K: Eq + Hash, V> Deref for RefMulti<'_, K, V> {
+    type Target = V;
+    fn deref(&self) -> &V {
+        self.r.value()
+    }
+}
+
+pub struct Iter<'a, K, V> {
+    it: ::dashmap::iter::Iter<'a, K, V>,
+    _t: Token<'a>,
+}
+impl<'a, K: Eq + Hash + 'a, V: 'a> Iterator for Iter<'a, K, V> {
+    type Item = RefMulti<'a, K, V>;
+    fn next(&mut self) -> Option<Self::Item> {
+        self.it.next().map(|r| RefMulti { r })
+    }
+}
+
+impl<K: Eq + Hash + Clone, V> DashMap<K, V> {
+    pub fn new() -> Self {
+        Self {
+            inner: ::dashmap::DashMap::new(),
+            guards: AtomicUsize::new(0),
+        }
+    }
+    fn id(&self) -> usize {
+        self as *const Self as usize
+    }
+    /// the real map, for observation without a scheduling point
+    pub fn raw(&self) -> &::dashmap::DashMap<K, V> {
+        &self.inner
+    }
+    /// number of outstanding guards
+    pub fn guards(&self) -> usize {
+        self.guards.load(Ordering::SeqCst)
+    }
+    fn wait_free(&self) {
+        while self.guards.load(Ordering::SeqCst) > 0 {
+            contended(self.id());
+        }
+    }
+    pub fn entry(&self, k: K) -> Entry<'_, K, V> {
+        point(PointKind::Map, "map.entry", self.id());
+        loop {
+            match self.inner.try_entry(k.clone()) {
+                Some(de::Entry::Occupied(e)) => {
+                    return Entry::Occupied(OccupiedEntry {
+                        e,
+                        t: Token::new(&self.guards),
+                    })
+                }
+                Some(de::Entry::Vacant(e)) => {
+                    return Entry::Vacant(VacantEntry {
+                        e,
+                        t: Token::new(&self.guards),
+                    })
+                }
+                None => contended(self.id()),
+            }
+        }
+    }
+    pub fn get<Q>(&self, k: &Q) -> Option<Ref<'_, K, V>>
+    where
+        K: Borrow<Q>,
+        Q: Hash + Eq + ?Sized,
+    {
+        point(PointKind::Map, "map.get", self.id());
+        loop {
+            match self.inner.try_get(k) {
+                TryResult::Present(r) => {
+                    return Some(Ref {
+                        r,
+                        _t: Token::new(&self.guards),
+                    })
+                }
+                TryResult::Absent => return None,
+                TryResult::Locked => contended(self.id()),
+            }
+        }
+    }
+    pub fn get_mut<Q>(&self, k: &Q) -> Option<RefMut<'_, K, V>>
+    where
+        K: Borrow<Q>,
+        Q: Hash + Eq + ?Sized,
+    {
+        point(PointKind::Map, "map.get_mut", self.id());
+        loop {
+            match self.inner.try_get_mut(k) {
+                TryResult::Present(r) => {
+                    return Some(RefMut {
+                        r,
+                        _t: Token::new(&self.guards),
+                    })
+                }
+                TryResult::Absent => return None,
+                TryResult::Locked => contended(self.id()),
+            }
+        }
+    }
+    pub fn contains_key<Q>(&self, k: &Q) -> bool
+    where
+        K: Borrow<Q>,
+        Q: Hash + Eq + ?Sized,
+    {
+        self.get(k).is_some()
+    }
+    pub fn remove<Q>(&self, k: &Q) -> Option<(K, V)>
+    where
+        K: Borrow<Q>,
+        Q: Hash + Eq + ?Sized,
+    {
+        point(PointKind::Map, "map.remove", self.id());
+        self.wait_free();
+        self.inner.remove(k)
+    }
+    pub fn remove_if<Q>(&self, k: &Q, f: impl FnOnce(&K, &V) -> bool) -> Option<(K, V)>
+    where
+        K: Borrow<Q>,
+        Q: Hash + Eq + ?Sized,
+    {
+        point(PointKind::Map, "map.remove_if", self.id());
+        self.wait_free();
+        self.inner.remove_if(k, f)
+    }
+    pub fn insert(&self, k: K, v: V) -> Option<V> {
+        point(PointKind::Map, "map.insert", self.id());
+        self.wait_free();
+        self.inner.insert(k, v)
+    }
+    pub fn iter(&self) -> Iter<'_, K, V> {
+        point(PointKind::Map, "map.iter", self.id());
+        self.wait_free();
+        Iter {
+            it: self.inner.iter(),
+            _t: Token::new(&self.guards),
+        }
+    }
+    pub fn retain(&self, f: impl FnMut(&K, &mut V) -> bool) {
+        point(PointKind::Map, "map.retain", self.id());
+        self.wait_free();
+        self.inner.retain(f)
+    }
+    pub fn clear(&self) {
+        point(PointKind::Map, "map.clear", self.id());
+        self.wait_free();
+        self.inner.clear()
+    }
+    pub fn len(&self) -> usize {
+        point(PointKind::Map, "map.len", self.id());
+        self.wait_free();
+        self.inner.len()
+    }
+    pub fn is_empty(&self) -> bool {
+        self.len() == 0
+    }
+}
